@@ -106,6 +106,11 @@ func gen(g *hx.Gen) {
 	g.Emit(gx.CaseLine(gx.Empty(1), 0, []string{[]string{"B:256.0", "B:256.0.1"}[g.Pick(0, 1)]}))
 	g.Emit(gx.CaseLine(gx.Empty(1), 0, []string{"B:257.12"}))
 
+	// call sequences on related inputs with the caller writing into every result (seq.go)
+	for _, m := range []int{3, 6, 8} {
+		g.Emit(gx.CaseLine(gx.Empty(1), 0, []string{gx.TokString('Q', []int{m})}))
+	}
+
 	// large graphs with answers known by construction, at sizes / degrees / counter values around
 	// 128, 256 (and 512 in the thorough tier): see constructed.go.  One token per case.
 	sizes := []int{15, 16, 17, 31, 32, 33, 63, 64, 65, 127, 128, 129, 255, 256, 257}
@@ -131,6 +136,17 @@ func gen(g *hx.Gen) {
 		}
 		big(5, 3+r.Intn(6), m/4, 0) // small clique, many leaves
 	}
+
+	// many maximal cliques of one size across 8 / 16 / 32 / 64: K_a joined to t disjoint non-edges
+	for _, sz := range []int{7, 8, 9, 15, 16, 17, 31, 32, 33, 63, 64, 65} {
+		for _, t := range []int{2, 3 + r.Intn(2), 5, g.Pick(6, 8+r.Intn(3))} {
+			if t <= sz {
+				big(7, sz-t, t, 0)
+			}
+		}
+	}
+	big(7, 12, 5, 0)
+	big(7, 0, 8, 0) // cocktail party graph: 256 cliques of size 8
 
 	// volume where the branch and bound backtracks: batches of planted k-partite graphs checked
 	// without an exponential oracle (planted.go) ...
